@@ -134,6 +134,12 @@ func (e *EDNS) ServeDNS(ctx context.Context, ch *middleware.Chain) {
 		return
 	}
 
+	// Everything below reads and rewrites the one OPT IsEdns0 selects (the
+	// last). Any other OPT in the additional section would stay where it is
+	// and travel upstream with whatever the client put in it - a client
+	// subnet included - whatever the forwarding policy says.
+	dropShadowedOPTs(req)
+
 	noedns := req.IsEdns0() == nil
 	keepalive := hasClientKeepalive(req)
 	if hasClientECS(req) {
@@ -270,6 +276,30 @@ func (e *EDNS) serveWire(ctx context.Context, ch *middleware.Chain) {
 		}
 	}()
 	ch.Next(ctx)
+}
+
+// dropShadowedOPTs removes every OPT record but the last from the request's
+// additional section: the last is the one IsEdns0 selects and the only one
+// this middleware gets to see.
+func dropShadowedOPTs(req *dns.Msg) {
+	last := -1
+	for i, rr := range req.Extra {
+		if rr != nil && rr.Header().Rrtype == dns.TypeOPT {
+			last = i
+		}
+	}
+	if last <= 0 {
+		return
+	}
+	kept := req.Extra[:0]
+	for i, rr := range req.Extra {
+		if i != last && rr != nil && rr.Header().Rrtype == dns.TypeOPT {
+			continue
+		}
+		kept = append(kept, rr)
+	}
+	clear(req.Extra[len(kept):])
+	req.Extra = kept
 }
 
 func hasClientKeepalive(req *dns.Msg) bool {
